@@ -34,6 +34,7 @@ Proof.
   - intros a s r s' HI H. prim_inv H s. dp_same.
   - intros a s r s' HI H. prim_inv H s. dp_same.
   - intros b s r s' HI H. prim_inv H s. dp_same.
+  - intros t s r s' HI H. prim_inv H s. dp_same.
   - intros evs s r s' HI H. prim_inv H s. dp_same.
   - intros A e s r s' HI H. prim_inv H s. dp_same.
 Qed.
@@ -161,4 +162,22 @@ Proof.
   - eapply call_balanced; eassumption.
   - intros e He. subst r.
     exact (ev_call _ err_last_all src funcs fz (S n) tok fc args s _ s' H).
+Qed.
+
+(* C08 + C20: calls made one after the other do not accumulate.  However many elements (with
+   their calls, matches and next statements) have been processed before, the rules of the next
+   element start on <root> alone, so a call made there is not refused *)
+Theorem sequential_calls_do_not_accumulate src funcs fz n rules bid off k i s s1 name :
+  frame_names s = [bs "<root>"] ->
+  rules_start src funcs fz n rules bid off k i s s1 ->
+  push_frame name s1 = (Ok true, pushed name s1).
+Proof.
+  intros Hs Hr.
+  assert (HI : has_frame s).
+  { unfold has_frame. intros E. unfold frame_names in Hs. rewrite E in Hs. discriminate. }
+  destruct (history_independent _ _ _ _ _ _ _ _ _ _ _ HI Hr) as [_ E].
+  apply push_frame_succeeds.
+  assert (L : length (frames s1) = 1).
+  { rewrite <- (map_length fname). fold (frame_names s1). rewrite E, Hs. reflexivity. }
+  rewrite L. unfold call_depth_limit. lia.
 Qed.
